@@ -148,13 +148,42 @@ def _check(src, rep):
         raise Undecided(f"__init__ not analysable: {e}")
     other_fields = {k: v for k, v in init_env.items() if k.startswith("self.") and k != "self." + reg}
 
+    # fields other than the register that some method besides the constructor assigns: arbitrary at the time of a call
+    mutable_other = set()
+    for mname, mf in cls.methods.items():
+        if mname == "__init__":
+            continue
+        for n in ast.walk(mf.node):
+            tg = n.targets if isinstance(n, ast.Assign) else [n.target] if isinstance(n, (ast.AugAssign, ast.AnnAssign)) else []
+            for t in tg:
+                if isinstance(t, ast.Attribute) and isinstance(t.value, ast.Name) and t.value.id == "self":
+                    mutable_other.add("self." + t.attr)
+
     def state(regv):
         env = dict(other_fields)
         for k in list(env):
-            if isinstance(env[k], BV) and k != "self." + reg:
+            if (isinstance(env[k], BV) or k in mutable_other) and k != "self." + reg:
                 env[k] = Opq(k)  # other state: arbitrary at the time of a call
         env["self." + reg] = regv
         return env
+
+    r16_ = vars.fresh("reg0", 16)
+    # is_good / checksum are functions of the current register only (no latched or cached state)
+    for n_ in ("is_good", "checksum"):
+        exo = Ex(M, ce, vars, MOD, key)
+        why_o = None
+        try:
+            cs_ = explore(lambda sub, ne, n_=n_: _run(Ex, M, ce, vars, key, need[n_], state(r16_.subst(sub)), ne))
+            if any(isinstance(cv, Opq) for _, _, cv in cs_):
+                why_o = next(cv.what for _, _, cv in cs_ if isinstance(cv, Opq))
+        except TableWrong:
+            pass
+        except Top as e:
+            if "other state" in str(e):
+                why_o = str(e)
+        if why_o:
+            rep.violation("O5" if n_ == "is_good" else "O4", f"{MOD}.{CLS}.{n_}", "other-state", f"{n_} is not a function of the current register: it depends on other state of the object ({why_o}) - "
+                          "after more octets have been fed the answer no longer describes the octets fed so far", file, need[n_].node.lineno)
 
     r16 = vars.fresh("reg", 16)
     b8 = vars.fresh("octet", 8)
@@ -480,18 +509,22 @@ def _window_grid(M, ce, fn, Ex):
         for ln in range(0, 5):
             if st + ln > len(octs):
                 continue
-            ex = Ex(M, ce, vars, MOD, (MOD, CLS))
-            env = {data: list(octs), start: BV.const(st), length: BV.const(ln)}
+            def run(sub, ne, st=st, ln=ln):
+                ex = Ex(M, ce, vars, MOD, (MOD, CLS))
+                ex.assumed_ne = ne or []
+                env = {data: [o.subst(sub) for o in octs], start: BV.const(st), length: BV.const(ln)}
+                return ex.run_body(body, env)
             try:
-                r = ex.run_body(body, env)
+                cs = explore(run)  # tests on octet values fork into point cases
             except Top as e:
                 return cells, None, str(e)
-            ref = BV.const(INIT)
-            for o in octs[st:st + ln]:
-                ref = ref_crc_reflected_step(ref, o, POLY)
-            cells += 1
-            if not isinstance(r, BV) or r != (ref ^ BV.const(0xFFFF)):
-                return cells, (st, ln), None
+            for sub, ne, r in cs:
+                ref = BV.const(INIT)
+                for o in octs[st:st + ln]:
+                    ref = ref_crc_reflected_step(ref, o.subst(sub), POLY)
+                cells += 1
+                if not isinstance(r, BV) or r != (ref ^ BV.const(0xFFFF)):
+                    return cells, (st, ln), None
     return cells, None, None
 
 
